@@ -447,10 +447,15 @@ func c13Scripted(r *eng.Run) {
 		r.Probe("reader_skips_header_check_without_extended_state")
 	}
 	var interHdr []ws.Header
-	rd.OnIntermediate = func(h ws.Header, pr io.Reader) error {
-		interHdr = append(interHdr, h)
-		_, err := io.Copy(io.Discard, pr)
-		return err
+	noHandler := r.T.Chance(sim.LCfg, 1, 3) // an application that lets the Reader drop control frames between fragments
+	if !noHandler {
+		rd.OnIntermediate = func(h ws.Header, pr io.Reader) error {
+			interHdr = append(interHdr, h)
+			_, err := io.Copy(io.Discard, pr)
+			return err
+		}
+	} else {
+		r.Probe("scripted_reader_without_intermediate_handler")
 	}
 	r.Note("C13 scripted side=%d seg=%d stream %s", side, p.SegMode, (&Stream{Frames: frames}).Describe())
 	r.Res.Nontrivial = true
@@ -585,6 +590,9 @@ func c13Scripted(r *eng.Run) {
 			}
 			interSent = append(interSent, f.Rsv)
 		}
+	}
+	if !noHandler && badIdx < 0 && len(interHdr) != len(interSent) {
+		r.Failf("wrong_unit", "OnIntermediate was called %d times, %d control frames lie between the fragments", len(interHdr), len(interSent))
 	}
 	for i, h := range interHdr {
 		if i >= len(interSent) {
